@@ -1,5 +1,6 @@
 //! C16 — routers forward along the route and TTL bounds every packet's life.
 
+use crate::model::wire;
 use crate::net::*;
 use crate::{scenario_rng, Delta, Env, PropDef, RngExt};
 use elvis::applications::ArpRouter;
@@ -25,7 +26,7 @@ pub static DEF: PropDef = PropDef {
     level: "exploration",
     total: |t| t.pick(64, 1600),
     run,
-    rule: "generated lines, stars and rings of 1..5 routers over 2..6 /24 subnets with 1..3 hosts each (ARP + subnet info pointing at a router of their subnet), static routes computed by breadth-first search and then perturbed: kept, deleted (black hole), redirected to another neighbour (2- and 3-cycles) or pointed at an address nobody owns; every ordered host pair sends UDP datagrams of 1..1400 bytes. A reference walk over the configured tables (own longest-prefix match) predicts, per datagram, the exact sequence of IPv4 frames (network, TTL = 30-k at hop k, unchanged addresses and payload) and the final delivery or silent drop; the H4 hook's frame log and the hosts' recorder applications must match it exactly, and no frame may appear later. Non-trivial = topology with a path of >=2 router hops and >=1 looping or black-holed datagram; distinct by topology+routes hash.",
+    rule: "generated lines, stars and rings of 1..5 routers over 2..6 /24 subnets with 1..3 hosts each (ARP + subnet info pointing at a router of their subnet), static routes computed by breadth-first search and then perturbed: kept, deleted (black hole), redirected to another neighbour (2- and 3-cycles) or pointed at an address nobody owns; every ordered host pair sends UDP datagrams of 1..1400 bytes, two thirds through the stack (initial TTL 30) and, for off-subnet destinations, one third as hand-built IPv4/UDP frames put on the wire by the source host after ARP resolution with an initial TTL of 0, 1, 2..5, 6..29, 30..64, 255 or uniform. A reference walk over the configured tables (own longest-prefix match) predicts, per datagram, the exact sequence of IPv4 frames (network, TTL = initial-k at hop k, a router drops what arrives with TTL 0 or 1, unchanged addresses and payload) and the final delivery or silent drop; the H4 hook's frame log and the hosts' recorder applications must match it exactly, and no frame may appear later. Non-trivial = topology with a path of >=2 router hops and >=1 looping or black-holed datagram; distinct by topology+routes hash.",
     assumptions: &[
         "all networks share one MTU (the router does not fragment)",
         "hosts own exactly one address; a router owns one address per attached subnet",
@@ -72,6 +73,9 @@ struct Dgram {
     at_ms: u64,
     /// destination address is one nobody owns (same subnet as dst.0, host index 99)
     ghost: bool,
+    /// None: sent through the stack's UDP/IPv4 (initial TTL 30). Some(t): the source host resolves the next
+    /// hop with ARP and puts a hand-built IPv4/UDP datagram with initial TTL t on the wire itself.
+    ttl: Option<u8>,
 }
 
 #[derive(Debug, Clone, PartialEq, Eq)]
@@ -85,7 +89,7 @@ fn walk(routers: &[RouterCfg], host_gw: &HashMap<(usize, usize), Option<usize>>,
     let dst_ip = if g.ghost { subnet(g.dst.0) | 99 } else { host_ip(g.dst.0, g.dst.1) };
     let dst_subnet = g.dst.0;
     let mut hops = vec![];
-    let mut ttl: u8 = 30;
+    let mut ttl: u8 = g.ttl.unwrap_or(30);
     // source host
     if g.src.0 == dst_subnet {
         // on-subnet: resolve the destination itself
@@ -101,11 +105,11 @@ fn walk(routers: &[RouterCfg], host_gw: &HashMap<(usize, usize), Option<usize>>,
     };
     hops.push(Hop { net: g.src.0, ttl });
     loop {
-        // router processing
-        ttl -= 1;
-        if ttl == 0 {
+        // router processing: a datagram arriving with no hop left (0 or 1) dies here
+        if ttl <= 1 {
             return (hops, false, "TTL exhausted");
         }
+        ttl -= 1;
         let r = &routers[at_router];
         // longest prefix match: all routes are /24 here, so exact subnet match
         let route = r.routes.iter().find(|x| x.to == dst_subnet);
@@ -135,7 +139,7 @@ fn walk(routers: &[RouterCfg], host_gw: &HashMap<(usize, usize), Option<usize>>,
                 }
             }
         }
-        if hops.len() > 64 {
+        if hops.len() > 300 {
             return (hops, false, "walk did not terminate");
         }
     }
@@ -272,7 +276,21 @@ fn scenario(env: &Env, k: u64, case: u64, rng: &mut rand::rngs::SmallRng, d: &mu
     for a in &all_hosts {
         for b in &all_hosts {
             if a != b && (all_hosts.len() <= 6 || rng.chance(1, 3)) {
-                dgrams.push(Dgram { id, src: *a, dst: *b, len: *rng.pick(&[1usize, 8, 100, 1400]), at_ms: rng.gen_range(0..50), ghost: rng.chance(1, 15) });
+                // off-subnet datagrams: one in three is hand-built with a boundary or arbitrary initial TTL
+                let ttl = if a.0 != b.0 && rng.chance(1, 3) {
+                    Some(match rng.gen_range(0..8) {
+                        0 | 1 => 0u8,
+                        2 => 1,
+                        3 => rng.gen_range(2..=5),
+                        4 => rng.gen_range(6..=29),
+                        5 => rng.gen_range(30..=64),
+                        6 => 255,
+                        _ => rng.gen(),
+                    })
+                } else {
+                    None
+                };
+                dgrams.push(Dgram { id, src: *a, dst: *b, len: *rng.pick(&[1usize, 8, 100, 1400]), at_ms: rng.gen_range(0..50), ghost: rng.chance(1, 15), ttl });
                 id += 1;
             }
         }
@@ -362,10 +380,25 @@ fn scenario(env: &Env, k: u64, case: u64, rng: &mut rand::rngs::SmallRng, d: &mu
                                 handles.push(tokio::spawn(async move {
                                     tokio::time::sleep(ms(g.at_ms)).await;
                                     let dst = if g.ghost { subnet(g.dst.0) | 99 } else { host_ip(g.dst.0, g.dst.1) };
+                                    let mut p = g.id.to_be_bytes().to_vec();
+                                    p.resize(g.len.max(4), (g.id % 200) as u8);
+                                    if let Some(t) = g.ttl {
+                                        let arp = machine.protocol::<Arp>().unwrap();
+                                        let pair = elvis_core::protocols::AddressPair { local: ip(me_ip), remote: ip(dst) };
+                                        if let Ok(mac) = arp.resolve(pair, 0, machine.clone()).await {
+                                            let (s4, d4) = (me_ip.to_be_bytes(), dst.to_be_bytes());
+                                            let udp = wire::pack_udp(s4, 1000 + (g.id % 60000) as u16, d4, 9, &p, false);
+                                            let h = wire::Ip4 { tos: 0, total_length: (20 + udp.len() + p.len()) as u16, id: g.id as u16, df: false, mf: false, offset: 0, ttl: t, protocol: 17, src: s4, dst: d4 };
+                                            // the default build neither computes nor accepts checksums other than zero
+                                            let mut bytes = wire::pack_ipv4(&h, false);
+                                            bytes.extend_from_slice(&udp);
+                                            bytes.extend_from_slice(&p);
+                                            let _ = machine.protocol::<Pci>().unwrap().open(0).send_pci(Message::new(bytes), Some(mac), std::any::TypeId::of::<Ipv4>());
+                                        }
+                                        return;
+                                    }
                                     let eps = Endpoints::new(Endpoint::new(ip(me_ip), 1000 + (g.id % 60000) as u16), Endpoint::new(ip(dst), 9));
                                     if let Ok(sess) = udp.open_for_sending(me, eps, machine.clone()).await {
-                                        let mut p = g.id.to_be_bytes().to_vec();
-                                        p.resize(g.len.max(4), (g.id % 200) as u8);
                                         let _ = sess.send(Message::new(p), machine);
                                     }
                                 }));
@@ -424,8 +457,10 @@ fn scenario(env: &Env, k: u64, case: u64, rng: &mut rand::rngs::SmallRng, d: &mu
         let got_hops: Vec<Hop> = got.iter().map(|x| x.1.clone()).collect();
         let mut payload = g.id.to_be_bytes().to_vec();
         payload.resize(g.len.max(4), (g.id % 200) as u8);
-        if got_hops.len() > 30 {
-            d.violation("more-frames-than-ttl", format!("datagram #{} produced {} IPv4 frames with an initial TTL of 30", g.id, got_hops.len()), witness(json!({"datagram": format!("{g:?}")})));
+        let ttl0 = g.ttl.unwrap_or(30);
+        d.saw("initial_ttl", ttl0.to_string());
+        if got_hops.len() > ttl0.max(1) as usize {
+            d.violation("more-frames-than-ttl", format!("datagram #{} produced {} IPv4 frames with an initial TTL of {ttl0}", g.id, got_hops.len()), witness(json!({"datagram": format!("{g:?}")})));
             return;
         }
         if got_hops != want {
